@@ -83,6 +83,8 @@ def token_array(shape, dtype: str, salt: int = 0):
 
 def canon(a):
     """Canonical (dtype, shape, values, mask) of a numpy / masked array for exact comparison."""
+    if isinstance(a, Malformed):
+        return ("malformed", a.what, a.info, None)
     if isinstance(a, np.ma.MaskedArray):
         mask = np.broadcast_to(np.ma.getmaskarray(a), a.shape)
         data = np.asarray(a.data)
@@ -134,14 +136,28 @@ def session(model) -> ort.InferenceSession:
     return ort.InferenceSession(model.SerializeToString(), so)
 
 
+class Malformed:
+    """An output whose fields do not fit together (e.g. null mask of another shape than the values)."""
+    def __init__(self, what, **info):
+        self.what, self.info = what, info
+        self.shape = info.get("values_shape", ())
+
+    def __repr__(self):
+        return f"Malformed({self.what}, {self.info})"
+
+
 def collect(outs: dict, name: str, arr) -> np.ndarray:
     """Reassemble output `name` of dtype `arr.dtype` from a session's flat outputs."""
     d = arr.dtype
     if isinstance(d, ndx.Nullable):
         vals = outs[f"{name}_values"]
+        null = outs[f"{name}_null"]
         if vals.dtype.kind == "O":
             vals = vals.astype(str)
-        return np.ma.masked_array(vals, mask=outs[f"{name}_null"])
+        if tuple(null.shape) != tuple(vals.shape):
+            return Malformed("null-field-shape-differs-from-values", values_shape=tuple(vals.shape),
+                             null_shape=tuple(null.shape))
+        return np.ma.masked_array(vals, mask=null)
     v = outs[name]
     if v.dtype.kind == "O":
         v = v.astype(str)
